@@ -29,6 +29,27 @@ def grid_const(rng):
   return fn
 
 
+def tiny_const(rng):
+  """grid_const with the last slice along axis 0 of every weight scaled by 2^-17 (below the 1e-4 range floor) and the last bias element ~2^-19."""
+  base = grid_const(rng)
+  def fn(si, t, role, shape):
+    a = base(si, t, role, shape)
+    if role == "w" and a.ndim >= 1 and a.shape[0] > 1:
+      a[-1] = a[-1] * np.float32(2.0 ** -17)
+    elif role == "b" and a.size > 1:
+      a.reshape(-1)[-1] = np.float32(rng.integers(1, 13) * 2.0 ** -19) * rng.choice([-1, 1])
+    return a
+  return fn
+
+
+def small_stats(scn):
+  """pipeline.inject_stats divided by 8 (still dyadic): input scales around 1e-3."""
+  def fn(q, model, info):
+    st = pipeline.inject_stats(scn, info)
+    return {n: {k: (v / np.float32(8)) for k, v in e.items()} for n, e in st.items()}
+  return fn
+
+
 def frac(x):
   return F(float(x)).limit_denominator(1 << 20)
 
